@@ -189,7 +189,7 @@ def run(rng, tier, model_ok):
         "evaluations": 2 * len(qs) + 2 * len(sub) + len(fresh), "distinct_nontrivial": len({q for q, used in queries if used}),
         "rule": "expressions of one to four operands mixing literals and phrases of shipped facts (plus two unknown phrases) with * /, parentheses "
                 "and round(), each evaluated with and without descriptions; 60 of them also in forward and reverse order against one Db and 25 "
-                "against fresh processes; non-trivial = distinct queries that look up at least one fact",
+                "against fresh processes; fact operands cast to a unit of every dimension they can be cast to; irregular blanks, case variants, several expressions per query; non-trivial = distinct queries that look up at least one fact",
         "samples": qs[:6], "mismatches": mismatches, "failures": failures,
         "extra": dict(stats, model_cases_evaluated_in_coq=ncoq, exhaustive=False),
     }
